@@ -90,7 +90,12 @@ pub trait Prop: 'static {
     fn floors() -> Vec<(&'static str, u32)> {
         vec![]
     }
+    /// remember the case being executed so that the watchdog can save it if it never returns
+    const TRACK_STALL: bool = false;
 }
+
+/// cases currently executing on worker threads (only for sub-checks with TRACK_STALL)
+pub static RUNNING: Mutex<Vec<(std::thread::ThreadId, std::time::Instant, String, String, String)>> = Mutex::new(Vec::new());
 
 // ---------------------------------------------------------------------------------------------
 // panic capture
@@ -317,7 +322,17 @@ fn worker<C: Codec, P: Prop>(tier: Tier, seed: u64, salt: u64, cases: u32, known
                 return Ok(());
             }
             beat();
+            if P::TRACK_STALL {
+                let me = std::thread::current().id();
+                let mut r = RUNNING.lock().unwrap();
+                r.retain(|x| x.0 != me);
+                r.push((me, std::time::Instant::now(), P::ID.to_string(), P::NAME.to_string(), C::to_string(&case)));
+            }
             let out = run_case::<P>(&case);
+            if P::TRACK_STALL {
+                let me = std::thread::current().id();
+                RUNNING.lock().unwrap().retain(|x| x.0 != me);
+            }
             let counting = !failed.get();
             if counting {
                 let mut st = stats_cell.borrow_mut();
@@ -724,7 +739,22 @@ pub fn start_watchdog() {
             if now == last {
                 idle += 5;
                 if idle >= limit {
-                    println!("INCONCLUSIVE watchdog: no case completed for {limit} s (possible non-yielding loop)");
+                    // save the cases that never returned, for a human to replay (never reported as a violation:
+                    // a wall-clock signal is not a correctness oracle)
+                    let mut saved = vec![];
+                    if let Ok(r) = RUNNING.lock() {
+                        for (_, since, id, name, case) in r.iter() {
+                            if since.elapsed().as_secs() + 5 >= limit {
+                                let dir = format!("/verif/replays/{id}");
+                                let _ = std::fs::create_dir_all(&dir);
+                                let path = format!("{dir}/stall-{name}-{:016x}.json.stalled", hash_str(case));
+                                let body = J::o(vec![("property", J::s(id.as_str())), ("check", J::s(name.as_str())), ("clause", J::s("stall")), ("detail", J::s("the case never returned (wall-clock watchdog)")), ("case", J::Raw(case.clone()))]);
+                                let _ = std::fs::write(&path, body.render());
+                                saved.push(path);
+                            }
+                        }
+                    }
+                    println!("INCONCLUSIVE watchdog: no case completed for {limit} s (possible non-yielding loop); stalled cases saved: {:?}", saved);
                     std::process::exit(2);
                 }
             } else {
